@@ -57,20 +57,23 @@ func (x c08Scn) e1() vfE1 {
 
 func genC08(rt *rapid.T) c08Scn {
 	x := c08Scn{IL: [2]bool{rapid.Bool().Draw(rt, "ila"), rapid.Bool().Draw(rt, "ilb")}, MTU: rapid.SampledFrom([]int{0, 0, 300, 1500}).Draw(rt, "mtu"),
-		RBuf: rapid.SampledFrom([]int{0, 0, 20000, 65536}).Draw(rt, "rbuf"), RTOMax: rapid.SampledFrom([]int{1000, 2000, 4000}).Draw(rt, "rtomax"),
+		RBuf: rapid.SampledFrom([]int{0, 0, 20000, 65536, 1500, 3000}).Draw(rt, "rbuf"), RTOMax: rapid.SampledFrom([]int{1000, 2000, 4000}).Draw(rt, "rtomax"),
 		Caller: rapid.IntRange(0, 1).Draw(rt, "caller"), CallMs: rapid.SampledFrom([]int{1, 2, 10, 50, 400}).Draw(rt, "callms")}
 	x.TSN = [2]uint32{genTSN(rt, "tsna", 8448), genTSN(rt, "tsnb", 8448)}
 	nw := rapid.IntRange(0, 10).Draw(rt, "nw")
 	lim := 65536
 	if x.RBuf != 0 {
-		lim = x.RBuf / 4
+		lim = x.RBuf / 2
+	}
+	if x.RBuf != 0 && x.RBuf <= 3000 {
+		nw = rapid.IntRange(5, 40).Draw(rt, "nwsmall") // many messages behind a tiny window
 	}
 	for i := 0; i < nw; i++ {
 		side := x.Caller
 		if rapid.IntRange(0, 3).Draw(rt, "other") == 0 {
 			side = 1 - x.Caller
 		}
-		x.Writes = append(x.Writes, [3]int{side, rapid.SampledFrom([]int{1, 100, 1200, 5000, lim}).Draw(rt, "size"), rapid.IntRange(0, x.CallMs).Draw(rt, "wat")})
+		x.Writes = append(x.Writes, [3]int{side, min(lim, rapid.SampledFrom([]int{1, 100, 1200, 5000, lim}).Draw(rt, "size")), rapid.IntRange(0, x.CallMs).Draw(rt, "wat")})
 	}
 	if rapid.IntRange(0, 2).Draw(rt, "crossed") == 0 {
 		x.Crossed = true
@@ -275,7 +278,7 @@ func TestVF_C08(t *testing.T) {
 		offs = append(offs, total)
 		total += c04Count(k)
 	}
-	variants := 6
+	variants := 8
 	get := func(i int) c08Scn {
 		v := i % variants
 		i /= variants
@@ -297,6 +300,12 @@ func TestVF_C08(t *testing.T) {
 			x.IL = [2]bool{true, true}
 			x.Writes = [][3]int{{0, 5000, 0}}
 			x.Crossed, x.CrossUs = true, 15000
+		case 6, 7: // crossed shutdown with far more queued than the peer's tiny window admits
+			x.RBuf = 1500
+			for i := 0; i < 30; i++ {
+				x.Writes = append(x.Writes, [3]int{0, 700, 0})
+			}
+			x.Crossed, x.CrossUs = true, (v-6)*12000
 		case 5: // peer also sending, writes after the call
 			x.Writes = [][3]int{{0, 3000, 0}, {1, 20000, 0}}
 			x.PostW = 2
